@@ -431,7 +431,7 @@ func (x *Exec) nextDeadline() (int64, bool) {
 //go:norace
 func (x *Exec) step(tr *trans) {
 	if tr.timer {
-		if tr.cost > 0 {
+		if len(x.trs) > 1 { // some thread could have run instead
 			x.earlyFires++
 		}
 		x.fireTimer()
